@@ -222,6 +222,8 @@ type idxCase struct {
 	aux    []byte
 	desc   string
 	bamBuf []byte // real mode: the BAM file
+	// checkpoints: query or write the index part-way through the build
+	checkpoints bool
 }
 
 func (ic *idxCase) fresh(rng *rand.Rand) anyIndex {
@@ -243,7 +245,28 @@ func (ic *idxCase) fresh(rng *rand.Rand) anyIndex {
 // build adds every record; it returns the index or the violation text.
 func (ic *idxCase) build(rng *rand.Rand) (anyIndex, string, string) {
 	ix := ic.fresh(rng)
+	// In some cases the index is queried or written part-way through the
+	// build (a checkpoint), then added to again.
+	check1, check2 := -1, -1
+	if len(ic.set.Recs) > 2 && ic.checkpoints {
+		check1 = 1 + rng.Intn(len(ic.set.Recs)-1)
+		check2 = 1 + rng.Intn(len(ic.set.Recs)-1)
+	}
 	for i, rec := range ic.set.Recs {
+		if i == check1 || i == check2 {
+			pv, st := core.Recover(func() {
+				if rng.Intn(2) == 0 {
+					ix.write()
+				} else {
+					for ref := 0; ref < ic.set.NRefs; ref++ {
+						ix.query(ref, 0, ic.set.Max()-1)
+					}
+				}
+			})
+			if pv != nil {
+				return nil, "checkpoint-panic|" + core.TopLibFrame(st), fmt.Sprintf("query/write after %d of %d records panicked: %v", i, len(ic.set.Recs), pv)
+			}
+		}
 		var err error
 		pv, st := core.Recover(func() { err = ix.add(rec, ic.chunks[i]) })
 		if pv != nil {
@@ -272,7 +295,8 @@ func newIdxCase(rng *rand.Rand, kind string, geom int, real bool) (*idxCase, str
 	for i := 0; i < ic.set.NRefs; i++ {
 		ic.names = append(ic.names, fmt.Sprintf("%s%d", []string{"chr", "contig_", "s"}[rng.Intn(3)], i))
 	}
-	ic.desc = fmt.Sprintf("kind=%s minShift=%d depth=%d refs=%d records=%d real=%v", kind, m, d, ic.set.NRefs, len(ic.set.Recs), real)
+	ic.checkpoints = rng.Intn(3) == 0
+	ic.desc = fmt.Sprintf("kind=%s minShift=%d depth=%d refs=%d records=%d real=%v checkpoints=%v", kind, m, d, ic.set.NRefs, len(ic.set.Recs), real, ic.checkpoints)
 	if real {
 		// write the records with bam.Writer, read back, use LastChunk
 		h, _ := sam.NewHeader(nil, nil)
